@@ -114,10 +114,10 @@ theorem C13_alias_invariant [LawfulNegVal V] (r : Rel) (sv : Bool)
       run r s ops' = ((run r s ops).1, List.zipWith Out.sgn ss (run r s ops).2) := by
   induction h with
   | nil => intro s _ _; rfl
-  | cons hop _ ih =>
+  | @cons op op' sg ops ops' ss hop _ ih =>
     intro s hc ha
     subst hc
-    obtain ⟨f1, f2⟩ := step_flags r s _ s.cur.signedValues rfl ha
+    obtain ⟨f1, f2⟩ := step_flags r s op s.cur.signedValues rfl ha
     simp only [run, step_alias r s hop, ih _ f1 f2, List.zipWith_cons_cons]
 
 /-- names handed out by `keys()/iter/items()` are canonical, and reading through them returns the
@@ -132,7 +132,8 @@ theorem C13_items_readable (r : Rel) (hr : r.Idem) (sv : Bool) (ops : List (Op V
     List.nodup_nil List.nodup_nil).2.1
   have hcan := (run_invariant r (fun s => Canon r s.cur ∧ Canon r s.alt)
     (fun s op h => step_canon r hr s op h) ops ⟨ADict.empty sv, ADict.empty sv⟩
-    ⟨by intro c hc; cases hc, by intro c hc; cases hc⟩).1
+    ⟨fun c hc => absurd hc (by simp [ADict.empty, PyDict.keys]),
+     fun c hc => absurd hc (by simp [ADict.empty, PyDict.keys])⟩).1
   generalize (run r ⟨ADict.empty sv, ADict.empty sv⟩ ops).1.cur = a at *
   have hk : c ∈ keys a.d := List.mem_map.2 ⟨(c, v), hm, rfl⟩
   have hcc := hcan c hk
@@ -223,8 +224,7 @@ theorem rXYZ_idem : rXYZ.Idem := by
     · decide
     · split
       · decide
-      · rename_i h1 h2 h3
-        simp [h1, h2, h3]
+      · simp
 
 /-- the hypotheses of `C13_get_set` are satisfiable with a negated alias and a bound pair:
     bounds `(-3, +inf)` stored through `y` read `(-inf, 3)` through `x` and `(-3, +inf)` through `z` -/
@@ -252,7 +252,7 @@ def simXY (signedNominals : Bool) : Sim :=
     `x = -3` -/
 example : (simXY false).getVar rXYZ "y" = some (-5)
     ∧ ((simXY false).setVar rXYZ "y" 3).bind (fun s => s.getVar rXYZ "x") = some (-3) := by
-  constructor <;> decide
+  constructor <;> decide +kernel
 
 /-- **F2, machine-checked**: with a *signed* nominal dictionary (the code before 7f4289d) the
     nominal seen through the negated alias is `-10`, `get_var('y')` returns `+x` and
@@ -262,6 +262,6 @@ theorem C13_signed_nominals_legacy_wrong :
       ∧ (simXY true).getVar rXYZ "y" = (simXY true).getVar rXYZ "x"
       ∧ (simXY true).getVar rXYZ "x" = some 5
       ∧ ((simXY true).setVar rXYZ "y" 3).bind (fun s => s.getVar rXYZ "x") = some 3 := by
-  refine ⟨?_, ?_, ?_, ?_⟩ <;> decide
+  refine ⟨?_, ?_, ?_, ?_⟩ <;> decide +kernel
 
 end RtcVerif.C13
